@@ -26,6 +26,8 @@ mod sketch;
 mod store;
 mod ttl;
 pub(crate) mod utils;
+#[cfg(transparencies_stretto_verif)]
+pub mod verif;
 
 extern crate atomic;
 
